@@ -8,9 +8,10 @@ props = [json.loads(l)['id'] for l in open(os.path.join(ROOT, 'properties.jsonl'
 na_reasons = json.load(open(os.path.join(ROOT, 'checks', 'NA.json')))
 hooks = subprocess.run(['git', '-C', '/repo', 'log', '--format=%H %s'], stdout=subprocess.PIPE, text=True).stdout.splitlines()
 hook_commits = [l.split()[0] for l in hooks if 'verif hooks' in l]
+enabled = set(open(os.path.join(ROOT, 'checks', 'ENABLED.txt')).read().split())
 checks = []
 for p in props:
-    c = registry.CHECKS.get(p)
+    c = registry.CHECKS.get(p) if p in enabled else None
     if not c:
         continue
     checks.append({
@@ -25,7 +26,7 @@ for p in props:
         'technique': c['technique'],
     })
 na = [{'property_id': p, 'reason': na_reasons.get(p, 'not yet covered by a specification-bound check in this tree')}
-      for p in props if p not in registry.CHECKS]
+      for p in props if p not in registry.CHECKS or p not in enabled]
 m = {
     'version': 1,
     'setup_cmd': 'bin/setup',
@@ -37,7 +38,7 @@ m = {
         'add_only': True,
     },
     'engines': [
-        {'name': 'vcheck', 'path': 'bin/vcheck', 'serves_properties': sorted(registry.CHECKS),
+        {'name': 'vcheck', 'path': 'bin/vcheck', 'serves_properties': sorted(set(registry.CHECKS) & enabled),
          'kind_free_text': 'TLA+ specs checked by TLC (E1), TLC state-graph transition cover replayed in the real code under a controlled scheduler (E2), TLC trace validation of recorded executions (E3), seeded random controlled schedules (E4), record validators (E5)'},
     ],
     'checks': checks,
